@@ -243,6 +243,7 @@ def main():
     if any(k in oblig for k in ("all", "quick", "thorough")):
         need = dict(oblig.get("all", {}))
         need.update(oblig.get(a.tier, {}))
+        need.update({k: v for k, v in oblig.items() if k not in ("all", "quick", "thorough")})   # a stray entry counts
     else:
         need = dict(oblig)
     unmet = [k for k in need if agg.obligations.get(k, 0) == 0]
